@@ -168,3 +168,10 @@ impl crate::AutosarModel {
         self.0.read().reference_origins.iter().map(|(k, v)| (k.clone(), v.clone())).collect()
     }
 }
+
+impl crate::Element {
+    /// address of the lock of this element, as reported in `LockEvent::lock`
+    pub fn verif_lock_addr(&self) -> usize {
+        &*self.0 as *const RwLock<crate::ElementRaw> as usize
+    }
+}
